@@ -8,6 +8,7 @@ Definition pstates (s : rset) : list (option Z) :=
   match more s with Some (st, srv) => expected_reqs (Some st) srv | None => [] end.
 
 Definition more_size (s : rset) : nat := match more s with Some (_, srv) => (npages srv + nfails srv)%nat | None => O end.
+Definition size (srv : server) : nat := (npages srv + nfails srv + nspecs srv)%nat.
 
 Lemma reqs_app a b : reqs (a ++ b) = reqs a ++ reqs b.
 Proof. induction a as [|[st|v] a IH]; cbn; [reflexivity| rewrite IH; reflexivity | exact IH]. Qed.
@@ -15,17 +16,20 @@ Proof. induction a as [|[st|v] a IH]; cbn; [reflexivity| rewrite IH; reflexivity
 Lemma reqs_ret o v : reqs (o ++ [Ret v]) = reqs o.
 Proof. rewrite reqs_app. cbn. apply app_nil_r. Qed.
 
-Lemma expected_nofail : forall srv cur, nfails srv = O -> expected_reqs cur srv = cur :: map Some (states srv).
+Lemma expected_nofail : forall srv cur, nfails srv = O -> nspecs srv = O -> expected_reqs cur srv = cur :: map Some (states srv).
 Proof.
-  induction srv as [rs|rs st rest IH|rest IH]; intros cur H; cbn in *; try discriminate; [reflexivity|].
-  rewrite IH by exact H. reflexivity.
+  induction srv as [rs|rs st rest IH|rest IH|rest IH]; intros cur H H'; cbn in *; try discriminate; [reflexivity|].
+  rewrite IH by assumption. reflexivity.
 Qed.
 
-Lemma expected_length : forall srv cur, length (expected_reqs cur srv) = (npages srv + nfails srv)%nat.
-Proof. induction srv; intros c; cbn; rewrite ?IHsrv; lia. Qed.
+Lemma expected_length : forall srv cur, length (expected_reqs cur srv) = size srv.
+Proof. unfold size. induction srv; intros c; cbn; rewrite ?IHsrv; lia. Qed.
 
 Lemma all_rows_concat srv : all_rows srv = concat (pages srv).
-Proof. induction srv as [rs|rs st rest IH|rest IH]; cbn; [symmetry; apply app_nil_r | rewrite IH; reflexivity | exact IH]. Qed.
+Proof. induction srv as [rs|rs st rest IH|rest IH|rest IH]; cbn; [symmetry; apply app_nil_r | rewrite IH; reflexivity | exact IH | exact IH]. Qed.
+
+Lemma npages_pos srv : (1 <= npages srv)%nat.
+Proof. induction srv; cbn; lia. Qed.
 
 Lemma states_length srv : S (length (states srv)) = npages srv.
 Proof. induction srv; cbn; congruence. Qed.
@@ -42,7 +46,7 @@ Lemma pull_spec : forall srv lm c st,
      | _ => False
      end.
 Proof.
-  induction srv as [rs|rs st' rest IH|rest IH]; intros lm c st.
+  induction srv as [rs|rs st' rest IH|rest IH|rest IH]; intros lm c st.
   - destruct rs as [|r rs]; cbn; repeat split; eauto. unfold pending_rows; cbn. rewrite app_nil_r. reflexivity.
   - destruct rs as [|r rs].
     + cbn [pull]. specialize (IH lm [] st'). destruct (pull lm [] st' rest) as [[s' o] v].
@@ -50,6 +54,9 @@ Proof.
       repeat split; try assumption. cbn. rewrite H1. reflexivity.
     + cbn. repeat split; eauto.
   - cbn. repeat split; eauto.
+  - cbn [pull]. specialize (IH lm c st). destruct (pull lm c st rest) as [[s' o] v].
+    destruct IH as (H1 & H2 & H3 & H4). cbn [all_rows expected_reqs nfails reqs].
+    repeat split; try assumption. cbn. rewrite H1. reflexivity.
 Qed.
 
 Lemma next_reqs s :
@@ -166,24 +173,26 @@ Lemma init_spec : forall srv, let '(s0, o0) := init srv in
   lmode s0 = false /\ it s0 = None /\ reqs o0 ++ pstates s0 = expected_reqs None srv
   /\ cur s0 ++ rest_rows s0 = all_rows srv /\ True
   /\ (pending_fails s0 <= nfails srv)%nat /\ (more_size s0 < npages srv + nfails srv)%nat
-  /\ (nfails srv = O -> o0 = [Req None]).
+  /\ (nfails srv = O -> nspecs srv = O -> o0 = [Req None]).
 Proof.
-  induction srv as [rs|rs st rest IH|rest IH]; cbn.
+  induction srv as [rs|rs st rest IH|rest IH|rest IH]; cbn.
   - unfold more_size, rest_rows, pstates, pending_fails; cbn. repeat split; auto using app_nil_r; lia.
   - unfold more_size, rest_rows, pstates, pending_fails; cbn. repeat split; auto; lia.
+  - destruct (init rest) as [s o]. destruct IH as (A & B & C & D & E & F & G & H). cbn.
+    repeat split; try assumption; try lia; try discriminate. rewrite C. reflexivity.
   - destruct (init rest) as [s o]. destruct IH as (A & B & C & D & E & F & G & H). cbn.
     repeat split; try assumption; try lia; try discriminate. rewrite C. reflexivity.
 Qed.
 
 (* ---------- the readings ---------- *)
 Lemma iterate_spec srv : nfails srv = O ->
-  snd (iterate srv) = VRows (all_rows srv) /\ reqs (fst (iterate srv)) = None :: map Some (states srv).
+  snd (iterate srv) = VRows (all_rows srv) /\ (nspecs srv = O -> reqs (fst (iterate srv)) = None :: map Some (states srv)).
 Proof.
   intros Hnf. unfold iterate. pose proof (init_spec srv) as I. destruct (init srv) as [s0 o0].
   destruct I as (I1 & I2 & I3 & I4 & _ & I6 & _ & I8).
   pose proof (list_self_spec s0 I1 ltac:(lia)) as L. destruct (list_self s0) as [[s' o] r].
-  destruct L as (-> & L2 & _). cbn [fst snd]. rewrite I4. split; [reflexivity|].
-  rewrite reqs_app, L2, I3. apply expected_nofail, Hnf.
+  destruct L as (-> & L2 & _). cbn [fst snd]. rewrite I4. split; [reflexivity|]. intros Hns.
+  rewrite reqs_app, L2, I3. apply expected_nofail; assumption.
 Qed.
 
 Lemma iterate_retry_spec srv :
@@ -207,23 +216,42 @@ Proof.
   destruct (list_self s0) as [[s' o] r]. destruct r; reflexivity.
 Qed.
 
+Lemma fetch_srv_reqs : forall srv c i lm st, let '(s', o, v) := fetch_srv c i lm st srv in
+  reqs o ++ pstates s' = expected_reqs (Some st) srv /\ lmode s' = lm /\ it s' = i.
+Proof.
+  induction srv as [rs|rs st' rest IH|rest IH|rest IH]; intros c i lm st; cbn; auto.
+  specialize (IH c i lm st). destruct (fetch_srv c i lm st rest) as [[s' o] v]. destruct IH as (A & B & C).
+  cbn. rewrite A. auto.
+Qed.
+
 Lemma fetch_reqs s : let '(s', o, v) := fetch s in reqs o ++ pstates s' = pstates s /\ lmode s' = lmode s.
 Proof.
   unfold fetch. destruct (more s) as [[st srv]|] eqn:Hm.
-  - destruct srv; cbn; unfold pstates; rewrite Hm; cbn; auto.
+  - pose proof (fetch_srv_reqs srv (cur s) (it s) (lmode s) st) as F.
+    destruct (fetch_srv (cur s) (it s) (lmode s) st srv) as [[s' o] v]. destruct F as (A & B & _).
+    unfold pstates at 2. rewrite Hm. auto.
   - cbn. unfold pstates. rewrite Hm. auto.
 Qed.
 
 Lemma manual_loop_spec : forall srv fuel s o st, more s = Some (st, srv) -> (npages srv + nfails srv <= fuel)%nat ->
   exists o', manual_loop fuel s o = (o ++ o', Some (cur s ++ all_rows srv)) /\ reqs o' = expected_reqs (Some st) srv.
 Proof.
-  induction srv as [rs|rs st' rest IH|rest IH]; intros fuel s o st Hm Hf; (destruct fuel as [|f]; [cbn in Hf; lia|]);
-    cbn [manual_loop]; unfold has_more, fetch; rewrite Hm.
+  induction srv as [rs|rs st' rest IH|rest IH|rest IH]; intros fuel s o st Hm Hf;
+    (match goal with H : (npages ?x + _ <= _)%nat |- _ => pose proof (npages_pos x) as Hpos end);
+    (destruct fuel as [|f]; [lia|]); clear Hpos;
+    cbn [manual_loop]; unfold has_more, fetch; rewrite Hm; cbn [fetch_srv].
   - exists [Req (Some st)]. destruct f; cbn; split; reflexivity.
   - destruct (IH f (mkRS rs (it s) (lmode s) (Some (st', rest))) (o ++ [Req (Some st)]) st' eq_refl ltac:(cbn in Hf; lia)) as (o' & E & R).
     rewrite E. exists (Req (Some st) :: o'). rewrite <- app_assoc. cbn. rewrite R. split; reflexivity.
   - destruct (IH f (mkRS (cur s) (it s) (lmode s) (Some (st, rest))) (o ++ [Req (Some st)]) st eq_refl ltac:(cbn in Hf; lia)) as (o' & E & R).
     rewrite E. exists (Req (Some st) :: o'). rewrite <- app_assoc. cbn. rewrite R. split; reflexivity.
+  - (* a speculative execution fired: one more request, then exactly what `rest` does *)
+    set (s' := mkRS (cur s) (it s) (lmode s) (Some (st, rest))).
+    destruct (IH (S f) s' (o ++ [Req (Some st)]) st eq_refl ltac:(cbn in Hf; lia)) as (o' & E & R).
+    cbn [manual_loop] in E. unfold has_more, fetch in E. cbn [more s'] in E. cbn [cur it lmode s'] in E.
+    destruct (fetch_srv (cur s) (it s) (lmode s) st rest) as [[x o1] v].
+    rewrite <- app_assoc in E. cbn [app] in E. rewrite E.
+    exists (Req (Some st) :: o'). rewrite <- app_assoc. cbn. rewrite R. split; reflexivity.
 Qed.
 
 Lemma manual_spec srv : exists o, manual srv = (o, Some (all_rows srv)) /\ reqs o = expected_reqs None srv.
@@ -282,29 +310,29 @@ Proof.
 Qed.
 
 (* getitem / eq after materialisation (no failing request) *)
-Lemma enter_list_mode_init srv : nfails srv = O -> let '(s0, _) := init srv in
+Lemma enter_list_mode_init srv : nfails srv = O -> nspecs srv = O -> let '(s0, _) := init srv in
   exists s1 o, enter_list_mode s0 = (s1, o, None) /\ cur s1 = all_rows srv /\ reqs o = map Some (states srv)
   /\ lmode s1 = true /\ more s1 = None.
 Proof.
-  intros Hnf. pose proof (init_spec srv) as I. destruct (init srv) as [s0 o0].
+  intros Hnf Hns. pose proof (init_spec srv) as I. destruct (init srv) as [s0 o0].
   destruct I as (I1 & I2 & I3 & I4 & _ & I6 & _ & I8).
   unfold enter_list_mode. rewrite I1, I2.
   pose proof (list_self_spec s0 I1 ltac:(lia)) as L. destruct (list_self s0) as [[s' o] r].
   destruct L as (-> & L2 & L3 & _). eexists _, _. split; [reflexivity|]. cbn. rewrite I4. repeat split; try assumption.
-  rewrite (I8 Hnf) in I3. cbn in I3. rewrite (expected_nofail srv None Hnf) in I3. rewrite L2. congruence.
+  rewrite (I8 Hnf Hns) in I3. cbn in I3. rewrite (expected_nofail srv None Hnf Hns) in I3. rewrite L2. congruence.
 Qed.
 
-Lemma getitem_spec srv i : nfails srv = O -> let '(s0, _) := init srv in
+Lemma getitem_spec srv i : nfails srv = O -> nspecs srv = O -> let '(s0, _) := init srv in
   exists o, snd (step s0 (OGetItem i)) = o ++ [Ret (py_getitem (all_rows srv) i)] /\ reqs o = map Some (states srv).
 Proof.
-  intros Hnf. pose proof (enter_list_mode_init srv Hnf) as E. destruct (init srv) as [s0 o0].
+  intros Hnf Hns. pose proof (enter_list_mode_init srv Hnf Hns) as E. destruct (init srv) as [s0 o0].
   destruct E as (s1 & o & E & C & R & _). cbn [step]. rewrite E. cbn. rewrite C. eauto.
 Qed.
 
-Lemma eq_spec srv other : nfails srv = O -> let '(s0, _) := init srv in
+Lemma eq_spec srv other : nfails srv = O -> nspecs srv = O -> let '(s0, _) := init srv in
   exists o, snd (step s0 (OEq other)) = o ++ [Ret (VBool (zlist_eqb (all_rows srv) other))] /\ reqs o = map Some (states srv).
 Proof.
-  intros Hnf. pose proof (enter_list_mode_init srv Hnf) as E. destruct (init srv) as [s0 o0].
+  intros Hnf Hns. pose proof (enter_list_mode_init srv Hnf Hns) as E. destruct (init srv) as [s0 o0].
   destruct E as (s1 & o & E & C & R & _). cbn [step]. rewrite E. cbn. rewrite C. eauto.
 Qed.
 
@@ -313,4 +341,42 @@ Proof.
   induction a as [|x a IH]; destruct b as [|y b]; cbn; split; try congruence; try reflexivity.
   - intros H. apply andb_true_iff in H. destruct H as [H1 H2]. apply Z.eqb_eq in H1. apply IH in H2. congruence.
   - intros H. inversion H; subst. rewrite Z.eqb_refl. cbn. apply IH. reflexivity.
+Qed.
+
+(* ---------- continuous paging ---------- *)
+Definition quiet (a : anystate) : Prop :=
+  match a with Cont _ => True | Paged s => (lmode s = true /\ it s = None) \/ more s = None end.
+
+Lemma expected_reqs_nonnil srv cur : expected_reqs cur srv <> [].
+Proof. destruct srv; cbn; discriminate. Qed.
+
+Lemma pstates_nil s : pstates s = [] -> more s = None.
+Proof. unfold pstates. destruct (more s) as [[st srv]|]; [|reflexivity]. intros H. destruct (expected_reqs_nonnil _ _ H). Qed.
+
+Lemma astep_quiet a o : quiet a -> cont_op o = true -> let '(a', outs) := astep a o in reqs outs = [] /\ quiet a'.
+Proof.
+  intros Q Hop. destruct a as [s|c]; cbn [astep].
+  - destruct Q as [[Hl Hi]|Hm].
+    + destruct o; try discriminate; cbn [step]; unfold iter_, next, enter_list_mode, list_self; rewrite ?Hl, ?Hi; cbn; auto.
+    + pose proof (step_reqs s o) as R. destruct (step s o) as [s' outs].
+      unfold pstates in R at 2. rewrite Hm in R. apply app_eq_nil in R. destruct R as [R1 R2].
+      split; [exact R1|]. right. apply pstates_nil, R2.
+  - destruct c as [g ci m]. destruct o; try discriminate; cbn; unfold cont_exhausted; cbn; destruct ci, g, m; cbn; auto.
+Qed.
+
+Lemma arun_quiet : forall ops a, quiet a -> forallb cont_op ops = true ->
+  reqs (snd (arun_state a ops)) = [] /\ quiet (fst (arun_state a ops)).
+Proof.
+  induction ops as [|o ops IH]; intros a Q H; cbn [arun_state]; [auto|].
+  cbn in H. apply andb_true_iff in H. destruct H as [H1 H2].
+  pose proof (astep_quiet a o Q H1) as S1. destruct (astep a o) as [a1 o1]. destruct S1 as [R1 Q1].
+  destruct (IH a1 Q1 H2) as [R2 Q2]. destruct (arun_state a1 ops) as [a2 o2]. cbn [fst snd] in *.
+  rewrite reqs_app, R1, R2. auto.
+Qed.
+
+Lemma cont_next_steps : forall g m, snd (arun_state (Cont (mkCS g true m)) (repeat ONext (length g))) = map (fun r => Ret (VRow r)) g.
+Proof.
+  induction g as [|r g IH]; intros m; cbn [length repeat arun_state]; [reflexivity|].
+  cbn [astep cstep cit gen cmore]. specialize (IH m). destruct (arun_state (Cont (mkCS g true m)) (repeat ONext (length g))) as [a o].
+  cbn in *. rewrite IH. reflexivity.
 Qed.
